@@ -28,7 +28,6 @@ HARNESSES = {
     'K-range-uu': dict(path='mem::queue::verif_kani::k_range_uu', fn='k_range_uu', bounded=True, bound='2 records x 1-byte payloads at symbolic positions; bound kinds uu with symbolic values'),
     'K-mrs-0': dict(path='record::verif_kani::k_mrs_0', fn='k_mrs_0', bounded=True, bound='empty batch, symbolic first position'),
     'K-mrs-1': dict(path='record::verif_kani::k_mrs_1', fn='k_mrs_1', bounded=True, bound='1 payload of <= 2 bytes, symbolic first position'),
-    'K-mrs-2': dict(path='record::verif_kani::k_mrs_2', fn='k_mrs_2', bounded=True, bound='2 payloads of <= 1 byte each, symbolic first position'),
 }
 
 RSS_LIMIT_KB = 12 * 1024 * 1024
